@@ -178,6 +178,7 @@ class Stmt:
     comment: str = None  # trailing ordinary comment text
     do_label: int = None
     scope: object = None  # the Scope whose names this statement sees
+    seltype: tuple = ()  # enclosing SELECT TYPE constructs as (selector Ent, [SELECT TYPE stmt, type guard stmts]): inside, the selector is a construct entity
 
 
 @dataclass
@@ -213,7 +214,7 @@ class Builder:
         self.top_scopes = []
         self.cur = None  # current FileModel
         self.stats = {"homonyms": 0, "decoys": 0, "renames": 0, "only": 0, "reexport": 0, "inherited": 0, "shadow": 0, "constructs": 0,
-                      "member_chain": 0, "same_line_dups": 0, "quote_mix": 0, "unnamed_interfaces": 0, "io_end_file": 0, "rename_lists": 0, "double_names": 0}
+                      "member_chain": 0, "same_line_dups": 0, "quote_mix": 0, "unnamed_interfaces": 0, "io_end_file": 0, "rename_lists": 0, "double_names": 0, "more_constructs": 0, "external_procs": 0, "enums": 0}
         self.construct_id = 0
         self.loopvars = []
         self.scope_stack = []
@@ -273,6 +274,7 @@ class Builder:
         s = Stmt(list(toks), kind=kind, depth=depth, **kw)
         if s.scope is None and self.scope_stack:
             s.scope = self.scope_stack[-1]
+        s.seltype = tuple(getattr(self, "seltype_stack", ()))
         self.cur.stmts.append(s)
         return s
 
@@ -298,8 +300,12 @@ class Builder:
                     if self.d_bool(3) and nf > 1:
                         self.gen_module(mod_i)
                         mod_i += 1
+            if self.opts.get("external_procs", True) and self.d_bool(3):
+                self.gen_external()
             if last:
                 self.gen_program()
+                if self.opts.get("external_procs", True) and self.d_bool(5):
+                    self.gen_external()
         return Program(self.files, self.ents, self.modules, self.top_scopes, self.stats)
 
     def gen_uses(self, scope, depth):
@@ -343,7 +349,11 @@ class Builder:
                 have = vis_by_ent.get(id(e), {n})
                 if have == {n}:
                     return True
-                return allow_double and not ((have | {n}) & host_names)
+                if allow_double and not ((have | {n}) & host_names):
+                    # remembered: gfortran 12 sometimes loses one of the two names ("has no IMPLICIT type")
+                    self.stats.setdefault("double_name_set", set()).update(have | {n})
+                    return True
+                return False
 
             whole_ok = all((n not in vis or vis[n] is e) and n not in forbid and name_ok(e, n) for n, e in exp.items())
             if whole_ok and any(vis_by_ent.get(id(e), {n}) != {n} for n, e in exp.items()):
@@ -436,6 +446,29 @@ class Builder:
         self.pop()
         self.modules.append(ent)
 
+    def gen_external(self):
+        """An external procedure: a program unit of its own (no host), never referenced by the other units."""
+        kind = "function" if self.d_bool(3) else "subroutine"
+        name = f"x_{self.fresh()}"
+        self.global_names.add(name.lower())
+        p = self.new_ent(name, kind, None)
+        psc = Scope(kind, p, None)
+        p.inner = psc
+        self.top_scopes.append(psc)
+        self.cur.units.append(p)
+        for _ in range(self.d_int(0, 2)):
+            dn = self.name_for(psc, allow_homonym=self.d_bool(2))
+            if dn.lower() == name.lower() or dn.lower() in psc.declared:
+                continue
+            d = self.new_ent(dn, "dummy", psc, typ=self.d_pick([T_INT, T_REAL]), writable=False)
+            psc.declared[dn.lower()] = d
+            p.dummies.append(d)
+        if kind == "function":
+            p.typ = self.d_pick([T_INT, T_REAL])
+        p.attrs["external"] = True
+        self.stats["external_procs"] += 1
+        self.gen_proc_body(p, 0, allow_internal=self.d_bool(2), unit=True)
+
     def gen_program(self):
         name = f"p_{self.fresh()}"
         self.global_names.add(name.lower())
@@ -477,6 +510,14 @@ class Builder:
         # variables
         for _ in range(self.d_int(1, 4)):
             self.gen_var(sc, depth, module)
+        if module and self.opts.get("enums", True) and self.d_bool(4):
+            # an ENUM block (END ENUM must close it and nothing else); the enumerators are plain text, never referenced:
+            # fortls does not index enumerators at all (recorded as a C05 finding by a dedicated program)
+            self.emit("enum, bind(c)", kind="open-enum", depth=depth)
+            names = [self.fresh(prefix="e_") for _ in range(self.d_int(1, 3))]
+            self.emit("enumerator :: " + ", ".join(n + (" = 4" if i == 0 and self.d_bool(2) else "") for i, n in enumerate(names)), kind="decl", depth=depth + 1)
+            self.emit("end enum", kind="close-enum", depth=depth)
+            self.stats["enums"] += 1
 
     def gen_type(self, sc, depth, module):
         name = self.fresh(avoid=set(sc.declared) | set(sc.use_visible()), prefix="t_")
@@ -595,6 +636,23 @@ class Builder:
                 toks.append(", ")
             toks.append(Ref(e, "decl"))
         self.emit(*toks, kind="decl", depth=depth)
+        if self.d_bool(2):
+            # a dedicated array for WHERE statements and constructs
+            n = self.name_for(sc, allow_homonym=False)
+            a = self.new_ent(n, "local", sc, typ="real-array", writable=False)
+            a.attrs["array"] = True
+            sc.declared[n.lower()] = a
+            sc.arrays = [a]
+            self.emit("real :: ", Ref(a, "decl"), "(3)", kind="decl", depth=depth)
+
+    def free_array(self, sc):
+        s = sc
+        while s is not None and s.kind not in ("subroutine", "function", "program"):
+            s = s.parent
+        if s is None or not getattr(s, "arrays", None):
+            return None
+        a = s.arrays[0]
+        return a if sc.lookup(a.name) is a else None
 
     def free_loopvar(self, sc):
         s = sc
@@ -707,7 +765,7 @@ class Builder:
             self.emit("end interface", kind="close-interface", depth=depth)
             self.stats["unnamed_interfaces"] += 1
 
-    def gen_proc_body(self, p, depth, allow_internal=True):
+    def gen_proc_body(self, p, depth, allow_internal=True, unit=False):
         psc = p.inner
         sc = p.scope
         toks = [f"{p.kind} ", Ref(p, "decl"), "("]
@@ -720,8 +778,10 @@ class Builder:
         if p.result is not None:
             toks += [" result(", Ref(p.result, "use"), ")"]
         self.push(psc)
-        self.emit(*toks, kind="open-proc", depth=depth, opens=p)
+        self.emit(*toks, kind="open-unit" if unit else "open-proc", depth=depth, opens=p)
         self.gen_uses(psc, depth + 1)
+        if unit:
+            self.emit("implicit none", kind="implicit", depth=depth + 1)
         for d in p.dummies:
             if d.attrs.get("class"):
                 bt = d.typ[1]
@@ -753,7 +813,7 @@ class Builder:
             self.emit("contains", kind="contains", depth=depth)
             for q in internal:
                 self.gen_proc_body(q, depth + 1, allow_internal=False)
-        self.emit(f"end {p.kind} ", Ref(p, "endname"), kind="close-proc", depth=depth, closes=p)
+        self.emit(f"end {p.kind} ", Ref(p, "endname"), kind="close-unit" if unit else "close-proc", depth=depth, closes=p)
         self.pop()
 
     # ---- executable part
@@ -852,6 +912,10 @@ class Builder:
             ws = self.vars_of(sc, typ, writable=True)
             if ws:
                 n, e = self.d_pick(ws)
+                if self.d_bool(5):
+                    # the IF statement (no THEN) opens nothing
+                    self.emit("if (", *self.expr(sc, T_INT, 1), " > 0) ", Ref(e, "use", n), " = ", *self.expr(sc, typ, 0), kind="exec", depth=depth, simple=True)
+                    return
                 self.emit(Ref(e, "use", n), " = ", *self.expr(sc, typ, 0), kind="exec", depth=depth, simple=True)
                 return
         if k == 4:
@@ -949,7 +1013,50 @@ class Builder:
         pre = [Ref(cname, "decl"), ": "] if named else []
         post = [" ", Ref(cname, "endname")] if named else []
         iv = self.free_loopvar(sc) if k == 8 else None
-        if k == 8 and iv is not None:
+        arr = self.free_array(sc) if k == 13 else None
+        cls = None
+        if k == 13:
+            cd = [(n, e) for n, e in sorted(sc.accessible().items()) if e.kind == "dummy" and e.attrs.get("class") and sc.lookup(n) is e]
+            cls = cd[0] if cd else None
+        if k == 8 and iv is None:
+            self.stats["more_constructs"] += 1
+            self.emit(*pre, "do while (", *self.expr(sc, T_INT, 1), " > 0)", kind="open-construct", depth=depth, opens=cid)
+            self.gen_body(sc, depth + 1, nest=nest + 1)
+            self.emit("end do", *post, kind="close-construct", depth=depth, closes=cid)
+        elif k == 13 and cls is not None and self.d_bool(2):
+            self.stats["more_constructs"] += 1
+            n, d = cls
+            bt = d.typ[1]
+            so = self.emit(*pre, "select type (", Ref(d, "use", n), ")", kind="open-construct", depth=depth, opens=cid)
+            heads = [so]  # the SELECT TYPE statement and its type guard statements
+            self.seltype_stack = list(getattr(self, "seltype_stack", [])) + [(d, heads)]
+            so.seltype = tuple(self.seltype_stack)
+            heads.append(self.emit("class is (", Ref(bt, "typeref", self.spelling_in(sc, bt)), ")", *post, kind="mid-construct", depth=depth))
+            self.gen_body(sc, depth + 1, nest=nest + 1)
+            heads.append(self.emit("class default", *post, kind="mid-construct", depth=depth))
+            self.gen_body(sc, depth + 1, nest=nest + 1)
+            self.emit("end select", *post, kind="close-construct", depth=depth, closes=cid)
+            self.seltype_stack = self.seltype_stack[:-1]
+        elif k == 13 and arr is not None:
+            self.stats["more_constructs"] += 1
+            n = arr.name
+            if self.d_bool(3):
+                # the statement form opens nothing
+                self.emit("where (", Ref(arr, "use", n), " > 0.0) ", Ref(arr, "use", n), " = 1.0", kind="exec", depth=depth, simple=True)
+                if named:
+                    self.emit(*pre, "if (", *self.expr(sc, T_INT, 1), " > 0) then", kind="open-construct", depth=depth, opens=cid)
+                    self.emit("end if", *post, kind="close-construct", depth=depth, closes=cid)
+            else:
+                self.emit(*pre, "where (", Ref(arr, "use", n), " > 0.0)", kind="open-construct", depth=depth, opens=cid)
+                self.emit(Ref(arr, "use", n), " = ", Ref(arr, "use", n), " + 1.0", kind="exec", depth=depth + 1)
+                if self.d_bool(2):
+                    self.emit("elsewhere (", Ref(arr, "use", n), " < -1.0)", *post, kind="mid-construct", depth=depth)
+                    self.emit(Ref(arr, "use", n), " = -1.0", kind="exec", depth=depth + 1)
+                if self.d_bool(2):
+                    self.emit("elsewhere", *post, kind="mid-construct", depth=depth)
+                    self.emit(Ref(arr, "use", n), " = 0.0", kind="exec", depth=depth + 1)
+                self.emit("end where", *post, kind="close-construct", depth=depth, closes=cid)
+        elif k == 8 and iv is not None:
             n = iv.name
             s = self.emit(*pre, "do ", Ref(iv, "use", n), " = 1, 3", kind="open-construct", depth=depth, opens=cid)
             self.loopvars.append(iv)
@@ -959,6 +1066,10 @@ class Builder:
         elif k == 9:
             self.emit(*pre, "if (", *self.expr(sc, T_INT, 1), " > 0) then", kind="open-construct", depth=depth, opens=cid)
             self.gen_body(sc, depth + 1, nest=nest + 1)
+            if self.d_bool(3):
+                self.stats["more_constructs"] += 1
+                self.emit(self.d_pick(["else if (", "elseif (", "else  if ("]), *self.expr(sc, T_INT, 1), " > 1) then", *post, kind="mid-construct", depth=depth)
+                self.gen_body(sc, depth + 1, nest=nest + 1)
             if self.d_bool(2):
                 self.emit("else", *post, kind="mid-construct", depth=depth)
                 self.gen_body(sc, depth + 1, nest=nest + 1)
@@ -1216,7 +1327,9 @@ def render_fixed(prog: Program, layout: Layout) -> Rendered:
     for o in occs:
         if id(o.stmt) in cont_stmts:
             o.split = True
-    return Rendered(files, flines, occs, stmt_lines, layout)
+    r = Rendered(files, flines, occs, stmt_lines, layout)
+    r.prog = prog
+    return r
 
 
 def render(prog: Program, layout: Layout = PLAIN, suffix=None) -> Rendered:
@@ -1315,6 +1428,7 @@ def render(prog: Program, layout: Layout = PLAIN, suffix=None) -> Rendered:
         if o.role in ("decl",) and o.ent.decl is None:
             o.ent.decl = (o.file, o.line, o.col)
     r = Rendered(files, flines, occs, stmt_lines, layout)
+    r.prog = prog
     return r
 
 
